@@ -60,8 +60,11 @@ impl Default for PropsArc {
 
 // ---- milu::script::Value: the compiled key expression and the value it evaluates to.
 
+/// the variants a key expression can evaluate to are visible (an edited body may inspect them); everything else
+/// of milu's Value (identifiers, op-calls, native objects, arrays ..) is one opaque variant
+pub enum Value { Integer(i64), Boolean(bool), String(String), Other(ValueOpaque) }
 #[verifier::external_body]
-pub struct Value { _p: u64 }
+pub struct ValueOpaque { _p: u64 }
 
 /// Marker: "evaluating expression `expr` against the request properties `props` yielded a value whose identity
 /// under Hash/Eq is `key`".  Only `real_value_of` establishes it, so a postcondition
